@@ -66,6 +66,113 @@ def canon_session(sess):
     return start, items
 
 
+def _parse_pos(pos):
+    """'20' -> (20, 21); '0..16' -> (0, 16); '22..22+len(x)' -> (22, '22+len(x)'); '23..' -> (23, None); else None."""
+    pos = str(pos)
+    if pos.isdigit():
+        return int(pos), int(pos) + 1
+    if ".." in pos:
+        a, b = pos.split("..", 1)
+        if not a.isdigit():
+            return None
+        return int(a), (int(b) if b.isdigit() else (b or None))
+    return None
+
+
+def flatten(tok):
+    """A fixed buffer filled piecewise and absorbed as a whole (or as a prefix slice ending where the last piece ends) is the
+    concatenation of its pieces; gaps of a zero-initialised buffer are zero bytes (`Z<k>`).  Returns the list of canonical tokens,
+    or None when the pieces do not tile the absorbed range (overlaps, unknown positions, a slice that cuts a piece)."""
+    end = ""
+    if tok[0] == "SUB":
+        inner, rng = tok[2]
+        if inner[0] != "BUF" or not str(rng).startswith(".."):
+            return None
+        end = str(rng)[2:]
+        tok = inner
+    if tok[0] != "BUF":
+        return None
+    zero_init = any(pos == "init" and t[0] == "FILL" and t[2] == 0 for pos, w, t in tok[2])
+    ents = []
+    for pos, w, t in tok[2]:
+        if pos == "init":
+            continue
+        pr = _parse_pos(pos)
+        if pr is None:
+            return None
+        ents.append((pr[0], pr[1], t))
+    ents.sort(key=lambda e: e[0])
+    out = []
+    cur = 0
+
+    def gap(to):
+        if isinstance(cur, int) and isinstance(to, int) and to > cur:
+            if not zero_init:
+                return False
+            out.append("Z%d" % (to - cur))
+            return True
+        return str(cur) == str(to)
+    for a, b, t in ents:
+        if cur is None:
+            return None
+        if isinstance(cur, int):
+            if a < cur or not gap(a):
+                return None
+        elif str(cur) != str(a):
+            return None
+        out.append(canon(t))
+        cur = b
+    total = end if end else (tok[1] if tok[1] else None)
+    if cur is not None:
+        if total is None:
+            return None
+        tot = int(total) if str(total).isdigit() else total
+        if isinstance(cur, int) and isinstance(tot, int):
+            if tot < cur or not gap(tot):
+                return None
+        elif str(cur) != str(tot):
+            if end:
+                return None     # a symbolic slice end that is not where the last piece ends
+            if not zero_init:
+                return None
+            out.append("Zpad")  # zero padding up to the fixed buffer length
+    # merge adjacent literal bytes
+    merged = []
+    for t in out:
+        if t.startswith("u8:0x") and merged and merged[-1].startswith("C:"):
+            merged[-1] += "%02x" % int(t[3:], 16)
+        elif t.startswith("u8:0x"):
+            merged.append("C:%02x" % int(t[3:], 16))
+        else:
+            merged.append(t)
+    return merged
+
+
+def flatten_session(sess):
+    """canon_session with every absorbed buffer replaced by its pieces; None if nothing could be flattened."""
+    start = None
+    items = []
+    changed = False
+    for e in sess:
+        if e[0] == "START":
+            start = e[1]
+        elif e[0] == "ABS":
+            fl = flatten(e[1]) if e[1][0] in ("BUF", "SUB") else None
+            if fl is not None:
+                changed = True
+                items.extend((t, bool(e[2])) for t in fl)
+            elif e[1][0] == "CAT":
+                for t in e[1][2]:
+                    items.append((canon(t), bool(e[2])))
+            else:
+                items.append((canon(e[1]), bool(e[2])))
+        elif e[0] == "DELEGATE":
+            items.append(("->%s(%s)" % (e[1], e[2]), False))
+        elif e[0] == "CLONE":
+            items.append(("<clone>", False))
+    return (start, items) if changed else None
+
+
 FRESH_STARTS = ("fresh", "reset", "from:get_hasher", "from:default")
 
 
@@ -173,6 +280,11 @@ PATTERNS = {
     "FV-TRIAL": ([(lambda t: True, True)], "C15", "trial randomizer hashing inside the fast-verify search"),
 }
 
+# the same reference preimages when the buffer-shaped ones are written piecewise (see flatten)
+FLAT_PATTERNS = {
+    "DAUX": [({"Z20"}, False), ({"C:fdfd"}, False), (N, False)],
+}
+
 # sessions without absorbed data: a hasher only finalised / only handed on
 EMPTY_OK = "a session that absorbs nothing here (finalises or delegates a hasher prepared elsewhere)"
 
@@ -187,6 +299,8 @@ def classify(start, items, fn_path):
             continue
         if match(items, pat) or match(items, loop_variant(pat)) or match(items, [(w, False) for w, r in pat]):
             out.append(name)
+        elif name in FLAT_PATTERNS and match(items, FLAT_PATTERNS[name]):
+            out.append(name)
     if not out and "thread_optimize" in fn_path:
         out.append("FV-TRIAL")
     return out
@@ -200,7 +314,15 @@ def analyse_sessions(F):
     for f in S.hasher_fns():
         for sess, end, b in S.sessions(f):
             st, items = canon_session(sess)
-            out.append((f, end, b, st, items, classify(st, items, f.path), hl.render_session(sess)))
+            cls = classify(st, items, f.path)
+            if not cls:
+                # a preimage assembled in a fixed buffer and absorbed once: compare its pieces
+                fl = flatten_session(sess)
+                if fl is not None:
+                    cls2 = classify(fl[0], fl[1], f.path)
+                    if cls2:
+                        st, items, cls = fl[0], fl[1], cls2
+            out.append((f, end, b, st, items, cls, hl.render_session(sess)))
     return S, out
 
 
